@@ -47,6 +47,9 @@ type Obl struct {
 	Model   string
 	Query   string
 	Results map[string]string
+	// Cases: the conditions of the forward edges into the block the obligation sits in (their
+	// disjunction is the block's reach condition); used to split an undecided query by incoming path
+	Cases []string
 }
 
 type State struct {
@@ -109,6 +112,9 @@ type VC struct {
 	globalsRead map[*ssa.Global]bool
 	inlineDepth int
 	preOnly     bool // applyContract stops after the preconditions (go statements)
+	goalSks     map[string]TV // skolem constants of the goal being translated (by variable name)
+	goalBind    map[string]TV // given terms for quantified variables (instance hints)
+	oracle      bool // replay oracle: recursive spec functions are given as define-fun-rec (they must compute)
 	callPreHit  map[int]int
 	transferHit map[int]int
 	tokParams   map[int]string
@@ -276,6 +282,17 @@ func (vc *VC) obligeG(kind, anchor, guard, cond string, pos token.Pos) *Obl {
 	if cond == "true" || guard == "false" {
 		// trivially discharged; still recorded
 		o.Result, o.Solver = "unsat", "trivial"
+	}
+	if vc.cur != nil && o.Result == "" && kind != "cover" {
+		if _, isHdr := vc.loopOf[vc.cur.Index]; !isHdr {
+			for _, p := range vc.cur.Preds {
+				if !vc.isBackEdge(p, vc.cur) {
+					if c := vc.edgeCond(p, vc.cur); c != "false" {
+						o.Cases = append(o.Cases, c)
+					}
+				}
+			}
+		}
 	}
 	vc.obls = append(vc.obls, o)
 	return o
